@@ -7,7 +7,8 @@
 From Coq Require Import String List ZArith Bool.
 Require Import Blots.Num Blots.gen.Builtins Blots.Ast Blots.Value Blots.Outcome Blots.Binop
                Blots.Env Blots.Eval Blots.BuiltinsHof Blots.Program Blots.EvalInst
-               Blots.proofs.DepthMono Blots.proofs.HigherOrder.
+               Blots.EvalFull
+               Blots.proofs.DepthMono Blots.proofs.HigherOrder Blots.proofs.FullHigherOrder.
 Import ListNotations.
 
 (* `list via f` runs exactly map's loop over the same callback: same results, same failure,
@@ -76,6 +77,40 @@ Check C13_into_vs_call_in_evaluator : forall release d fr x f st,
   binop_impl (AD release binop_impl builtin_impl d fr) Into x f st
   = AD release binop_impl builtin_impl d fr f f [x] st.
 Print Assumptions C13_into_vs_call_in_evaluator.
+
+(* ... the same three for the evaluator with every transcribed built-in (EvalFull.v) *)
+Theorem C13_map_vs_via_in_full_evaluator : forall release d fr l f st,
+  is_callable f = true ->
+  rle (AD release binop_impl builtin_full d fr (VBuiltin B_map) (VBuiltin B_map) [VList l; f] st)
+      (binop_impl (AD release binop_impl builtin_full d fr) Via (VList l) f st).
+Proof. exact map_form_le_via_form_full. Qed.
+Check C13_map_vs_via_in_full_evaluator : forall release d fr l f st,
+  is_callable f = true ->
+  rle (AD release binop_impl builtin_full d fr (VBuiltin B_map) (VBuiltin B_map) [VList l; f] st)
+      (binop_impl (AD release binop_impl builtin_full d fr) Via (VList l) f st).
+Print Assumptions C13_map_vs_via_in_full_evaluator.
+
+Theorem C13_filter_vs_where_in_full_evaluator : forall release d fr l f st,
+  is_callable f = true ->
+  rle (AD release binop_impl builtin_full d fr (VBuiltin B_filter) (VBuiltin B_filter) [VList l; f] st)
+      (binop_impl (AD release binop_impl builtin_full d fr) Where (VList l) f st).
+Proof. exact filter_form_le_where_form_full. Qed.
+Check C13_filter_vs_where_in_full_evaluator : forall release d fr l f st,
+  is_callable f = true ->
+  rle (AD release binop_impl builtin_full d fr (VBuiltin B_filter) (VBuiltin B_filter) [VList l; f] st)
+      (binop_impl (AD release binop_impl builtin_full d fr) Where (VList l) f st).
+Print Assumptions C13_filter_vs_where_in_full_evaluator.
+
+Theorem C13_into_vs_call_in_full_evaluator : forall release d fr x f st,
+  is_callable f = true ->
+  binop_impl (AD release binop_impl builtin_full d fr) Into x f st
+  = AD release binop_impl builtin_full d fr f f [x] st.
+Proof. exact into_form_is_call_form_full. Qed.
+Check C13_into_vs_call_in_full_evaluator : forall release d fr x f st,
+  is_callable f = true ->
+  binop_impl (AD release binop_impl builtin_full d fr) Into x f st
+  = AD release binop_impl builtin_full d fr f f [x] st.
+Print Assumptions C13_into_vs_call_in_full_evaluator.
 
 (* Definitions met whenever the callback succeeds on all elements, i.e. behaves as a function g
    of the argument vector it is given (element, and the 0-based index when it accepts one more
